@@ -18,4 +18,6 @@ for name in $names; do
   echo "$line" | tee -a $out.tmp
 done
 rm -rf $scratch; rm -f .build/*.$(echo "$scratch" | md5sum | cut -c1-8)*
-sort -u $out.tmp > $out; rm -f $out.tmp
+touch $out
+for name in $names; do grep -v "^$name:" $out > $out.keep; mv $out.keep $out; done
+cat $out.tmp >> $out; sort -o $out $out; rm -f $out.tmp
